@@ -793,7 +793,7 @@ CHECKS = {
                                    [0, 1, 2, 3, 4, 8]) + _lm_edge_runs('thorough')},
         budget_s={'quick': 120, 'thorough': 1200},
         coverage=ex_cov,
-        rule='complete enumeration per (base, shift): every difference d in [0, table_size+512] x anchors r in '
+        rule='(also the exact addition logmath_add_exact, and logmath_add on objects without a table: every difference, far-apart operands to the underflow of the smaller one, both orders, log-zero) complete enumeration per (base, shift): every difference d in [0, table_size+512] x anchors r in '
              '{0,-1,-12345,zero+d+1} x both argument orders for logmath_add; every integer log value in [-2*table_size, 1000] '
              'x 5 fractional offsets for logmath_log/logmath_exp; oracle computed in long double. non-trivial = the add table '
              'contributed a non-zero increment, or the converted probability is not an exact power of the base; each (d, r) and '
